@@ -898,6 +898,10 @@ var c10OddHosts = []string{
 // c10History is a fixed list of operations, or (next != nil) a generator that
 // is asked for one operation at a time and told what the server replied.
 type c10History struct {
+	// zone: the time zone of the process for the duration of the history, as
+	// seconds east of UTC (time.Local is set to a fixed zone and restored);
+	// 0 leaves time.Local alone.
+	zone int
 	conf c10Conf
 	ops  []c10Op
 	tag  string
@@ -1189,7 +1193,29 @@ func (e *c10Enc) op(o c10Op) string {
 }
 
 // c10Run executes one history and emits its case.
+// c10Zones: the process time zones histories run in (seconds east of UTC).
+var c10Zones = []int{-5 * 3600, 5*3600 + 1800, 14 * 3600, -11 * 3600, 3600}
+
+func c10SetZone(zone int) (restore func()) {
+	if zone == 0 {
+		return func() {}
+	}
+	prev := time.Local
+	time.Local = time.FixedZone(fmt.Sprintf("UTC%+d", zone), zone)
+	return func() { time.Local = prev }
+}
+
+// expiries: the deadline of every lease of the table, in whole seconds.
+func (w *c10World) expiries() map[uint32]int64 {
+	m := map[uint32]int64{}
+	for _, l := range w.s4.leases {
+		m[c10FromAddr(l.IP)] = l.Expiry.Unix()
+	}
+	return m
+}
+
 func c10Run(t *testing.T, out *vfOut, h c10History) {
+	defer c10SetZone(h.zone)()
 	// As package home lays it out: the data directory inside the working
 	// directory of the installation.
 	base, err := os.MkdirTemp("", "c10")
@@ -1518,6 +1544,17 @@ func c10Run(t *testing.T, out *vfOut, h c10History) {
 				fail(i, "restart-differs", "a process started after the step has the table %v, memory holds %v (leases.json: %v)", st, sorted, disk)
 			} else if pa, pb := sw.probes(probeIPs, probeHosts), w.probes(probeIPs, probeHosts); pa != pb {
 				fail(i, "restart-answers-differ", "HostByIP/IPByHost of a process started after the step %s, of the running one %s", pa, pb)
+			} else {
+				// ... and every lease ends at the same instant, to the second (the
+				// resolution of the file), whatever the time zone of the process.
+				se := sw.expiries()
+				for ip, e := range w.expiries() {
+					if se[ip] != e {
+						fail(i, "restart-expiry-differs", "lease %s ends at %s in memory and at %s in a process started after the step (zone %+d s)",
+							c10Addr(ip), time.Unix(e, 0).UTC().Format(time.RFC3339), time.Unix(se[ip], 0).UTC().Format(time.RFC3339), h.zone)
+						break
+					}
+				}
 			}
 		}
 		// The service keeps writing the lease file of the data directory it was
@@ -1773,6 +1810,12 @@ func c10Run(t *testing.T, out *vfOut, h c10History) {
 	if h.fresh {
 		classes["fresh-install"] = true
 	}
+	switch {
+	case h.zone < 0:
+		classes["zone-west"] = true
+	case h.zone > 0:
+		classes["zone-east"] = true
+	}
 	ph := make([]string, len(enc.names))
 	for i, n := range enc.names {
 		ph[i] = vfBytes(n)
@@ -1781,7 +1824,7 @@ func c10Run(t *testing.T, out *vfOut, h c10History) {
 		Coq:        vfApp("C10.Case", cf0.coq(), vfBool(h.fresh), vfList("bytes", ph), vfNat(nProbe), vfZ(t0), vfList("stepobs", steps)),
 		Nontrivial: nontrivial,
 		MonitorOK:  len(fails) == 0,
-		Desc:       map[string]any{"tag": h.tag, "pool": fmt.Sprintf("%s-%s", c10Addr(cf0.Start), c10Addr(cf0.End)), "steps": desc},
+		Desc:       map[string]any{"tag": h.tag, "zone_s": h.zone, "pool": fmt.Sprintf("%s-%s", c10Addr(cf0.Start), c10Addr(cf0.End)), "steps": desc},
 	}
 	for k := range classes {
 		c.Classes = append(c.Classes, k)
@@ -1798,7 +1841,7 @@ func c10Run(t *testing.T, out *vfOut, h c10History) {
 		c.MonitorMsg = strings.Join(msgs, "; ")
 		// keep the replay short: cut the description after the failing step
 		if failStep >= 0 && failStep+1 < len(desc) {
-			c.Desc = map[string]any{"tag": h.tag, "pool": fmt.Sprintf("%s-%s", c10Addr(cf0.Start), c10Addr(cf0.End)), "steps": desc[:failStep+1]}
+			c.Desc = map[string]any{"tag": h.tag, "zone_s": h.zone, "pool": fmt.Sprintf("%s-%s", c10Addr(cf0.Start), c10Addr(cf0.End)), "steps": desc[:failStep+1]}
 		}
 	}
 	out.Emit(c)
@@ -2027,6 +2070,79 @@ func c10BitCases(out *vfOut, r *vfRand, n int) {
 	}
 }
 
+// c10ExpCases: the real fromLease / toLease on dynamic leases whose deadline
+// is a local time of a process in a given zone: what is written (wall clock
+// and offset label), and the instant read back, which must be the deadline at
+// whole seconds whatever the zone.
+func c10ExpCases(out *vfOut, r *vfRand, n int) {
+	zones := append([]int{0}, c10Zones...)
+	one := func(tag string, zone int, e int64) {
+		defer c10SetZone(zone)()
+		l := &dhcpsvc.Lease{Expiry: time.Unix(0, e), IP: c10Addr(uint32(10)<<24 | 4), HWAddr: c10MAC(1, 6), Hostname: "a"}
+		dl := fromLease(l)
+		ok, msg := true, ""
+		var wall, label, back int64
+		txt := dl.Expiry
+		if len(txt) < 20 {
+			ok, msg = false, fmt.Sprintf("expiry written as %q", txt)
+		} else {
+			w, err := time.Parse("2006-01-02T15:04:05", txt[:19])
+			if err != nil {
+				ok, msg = false, fmt.Sprintf("expiry written as %q", txt)
+			}
+			wall = w.Unix()
+			if suf := txt[19:]; suf != "Z" {
+				var sign byte
+				var hh, mm int64
+				if _, err = fmt.Sscanf(suf, "%c%02d:%02d", &sign, &hh, &mm); err != nil {
+					ok, msg = false, fmt.Sprintf("expiry written as %q", txt)
+				}
+				label = hh*3600 + mm*60
+				if sign == '-' {
+					label = -label
+				}
+			}
+		}
+		bl, err := dl.toLease()
+		if err != nil {
+			ok, msg = false, fmt.Sprintf("toLease(%q): %v", txt, err)
+		} else {
+			back = bl.Expiry.UnixNano()
+			if want := time.Unix(0, e).Unix(); ok && bl.Expiry.Unix() != want || bl.Expiry.Nanosecond() != 0 {
+				ok, msg = false, fmt.Sprintf("zone %+d s: a lease that ends at %s is written as %q and read back as ending at %s",
+					zone, time.Unix(0, e).UTC().Format(time.RFC3339Nano), txt, bl.Expiry.UTC().Format(time.RFC3339Nano))
+			}
+		}
+		cl := "expiry-zone-utc"
+		if zone < 0 {
+			cl = "expiry-zone-west"
+		} else if zone > 0 {
+			cl = "expiry-zone-east"
+		}
+		c := vfCase{
+			Coq:        vfApp("C10.ExpCase", vfZ(int64(zone)), vfZ(e), vfZ(wall), vfZ(label), vfZ(back)),
+			Nontrivial: true,
+			Classes:    []string{cl},
+			MonitorOK:  ok,
+			Desc:       map[string]any{"tag": tag, "zone_s": zone, "expiry_ns": e, "written": txt},
+		}
+		if !ok {
+			c.FindingKey, c.MonitorMsg = "expiry-roundtrip", msg
+		}
+		out.Emit(c)
+	}
+	base := int64(1790000000) * 1e9
+	for _, z := range zones {
+		one(fmt.Sprintf("whole-second%+d", z), z, base)
+		one(fmt.Sprintf("sub-second%+d", z), z, base+999999999)
+		one(fmt.Sprintf("before-midnight%+d", z), z, (base/86400e9)*86400e9-1)
+	}
+	for i := 0; i < n; i++ {
+		q := r.Fork(uint64(7000 + i))
+		one(fmt.Sprintf("random-expiry-%d", i), vfPick(q, zones), base+int64(q.U64()%uint64(400*86400*1e9))-int64(200*86400*1e9))
+	}
+}
+
 func TestVerifC10(t *testing.T) {
 	log.SetOutput(io.Discard)
 	if os.Getenv("VERIF_C10_NETNS") != "" {
@@ -2052,6 +2168,7 @@ func TestVerifC10(t *testing.T) {
 
 	c10ConfCases(out, rnd.Fork(4242), out.Scale(100, 3000))
 	c10BitCases(out, rnd.Fork(4343), out.Scale(60, 2000))
+	c10ExpCases(out, rnd.Fork(4444), out.Scale(40, 2000))
 	m := []uint64{1, 2, 3, 4}
 	for _, h := range c10Prelude(m) {
 		c10Run(t, out, h)
@@ -2085,6 +2202,10 @@ func TestVerifC10(t *testing.T) {
 		}
 		steps := 5 + r.Intn(56)
 		h := c10History{conf: cf, tag: fmt.Sprintf("random-%d", i)}
+		// Half of the histories run in a process whose time zone is not UTC.
+		if zr := r.Fork(57); zr.Bool() {
+			h.zone = vfPick(zr, c10Zones)
+		}
 		// Half of the histories run with probing (when it is available), with
 		// up to three pool addresses answering from the start.
 		for k, hr := 0, r.Fork(78); k < 3; k++ {
@@ -2237,6 +2358,14 @@ func c10Prelude(m []uint64) (hs []c10History) {
 	hs = append(hs, c10History{conf: cf, tag: "fresh-install", fresh: true, ops: []c10Op{
 		status, st(c10StaticAdd, 1, cf.End+2, "early"), restart, resetLeases, setc(cf.GW, cf.GW+2), setc(s, cf.End), status,
 		disc(1), sel(1, s, "alpha"), st(c10StaticAdd, 2, cf.End+2, "nas"), restart, reset, restart, disc(3), restart}})
+	// The pool is exhausted by leases with most of their time left, the process
+	// (in a zone west / east of UTC) restarts: nobody's address may be recycled
+	// before its deadline, and every deadline survives the restart.
+	for _, z := range []int{-5 * 3600, 5*3600 + 1800, 14 * 3600} {
+		hs = append(hs, c10History{conf: cf, zone: z, tag: fmt.Sprintf("exhaustion-after-restart%+d", z), ops: []c10Op{
+			disc(1), sel(1, s, "a"), disc(2), sel(2, s+1, "b"), disc(3), sel(3, s+2, "c"), restart, disc(4), renew(1, s, "a"),
+			tick(1800), restart, disc(4), renew(2, s+1, "b"), tick(1900), restart, disc(4), sel(4, s+2, "d"), restart}})
+	}
 	lcf := c10LoopConf(3)
 	ls := lcf.Start
 	lsel := func(mac uint64, ip uint32, host string) c10Op {
